@@ -85,4 +85,17 @@ def WF : List Span → Prop
   | [sp] => 0 < sp.2
   | sp :: sq :: rest => 0 < sp.2 ∧ sp.1 + sp.2 < sq.1 ∧ WF (sq :: rest)
 
+/-- the state-changing operations of a `Spans` history (`add`, `remove`, `self & other`). -/
+inductive Op where
+  | add (a l : Nat)
+  | remove (a l : Nat)
+  | inter (o : List Span)
+
+def applyOp (s : List Span) : Op → List Span
+  | .add a l => add s a l
+  | .remove a l => remove s a l
+  | .inter o => inter s o
+
+def run (s : List Span) (ops : List Op) : List Span := ops.foldl applyOp s
+
 end Tahoe.Spans
